@@ -334,7 +334,28 @@ def _multi(ctx, ip, arm, elems_field, value_suffix, container, adder, new_fn):
 
 
 def arm_MultiList(ctx, ip, arm):
-    _multi(ctx, ip, arm, "MultiList.elements", None, "Array", "Vec::<T, A>::push", "std::vec::Vec::<T>::new")
+    """null -> null; otherwise the array of every member's evaluation against the current node, in source order —
+    collected by a loop with push or by an iterator chain (collected.describe_vector)."""
+    from ..collected import ELEM, describe_vector
+    b = ip.b
+    tests = [t for t in ip.bool_tests(arm, "variable::Variable::is_null") if t[3] == {DATA}]
+    if len(tests) != 1:
+        chk(ctx, ip, arm, "null-test", False, "the current node is tested for null exactly once")
+        return
+    blk, tt, ft, _ = tests[0]
+    nul = [(ob, t) for ob, t in arm.oks if edge_dominates(b, (blk, tt), ob)]
+    chk(ctx, ip, arm, "null-in-null-out", len(nul) == 1 and nul[0][1] == {("agg", V + "::Null", (), ())}, "a null current node yields null")
+    arr = [(ob, t) for ob, t in arm.oks if edge_dominates(b, (blk, ft), ob)]
+    ok = len(arr) == 1 and bool(arr[0][1]) and all(t[0] == "agg" and t[1] == V + "::Array" for t in arr[0][1])
+    coll = False
+    if ok:
+        coll = True
+        for t in arr[0][1]:
+            d = describe_vector(ip.lib, b, ip.o, set(t[2][0]))
+            coll = coll and d is not None and len(d) == 1 and d[0].source == {("field", NODE, "MultiList.elements")} and d[0].every_item and \
+                bool(d[0].value) and all(v[0] == "call" and v[1] == INTERP and set(v[2][0]) == {DATA} and set(v[2][1]) == {ELEM} for v in d[0].value)
+    chk(ctx, ip, arm, "collects-all", coll and len(arm.recursive) == 1, "every member is evaluated against the current node and its result is collected unconditionally, in source order")
+    chk(ctx, ip, arm, "result", ok, "the result is the array collected that way")
 
 
 def arm_MultiHash(ctx, ip, arm):
